@@ -91,6 +91,12 @@ func init() {
 	execs["C04"] = execVar
 	// C05: gap layouts, and the column-invariance relation on the real code
 	gens["C05"] = func(r *RNG, id string) *Case {
+		if r.Chance(1, 4) { // the SAM form: multi-record queries, insertions after N / D, several insertions per record
+			c := samVarGen(r, id, r.PickInt([]int{2, 5}), false)
+			c.Set("focus", "indel")
+			c.Tag("sam-form")
+			return c
+		}
 		c := genVarCase(r, id, varOpts{fmtWeights: [2]int{1, 1}, withIns: true, gapRich: true, allowPhase: false, maxGenes: 3})
 		if c.Get("refmode") != "ann" && r.Chance(1, 2) {
 			return relOf(c, "regap", "eq")
@@ -159,6 +165,10 @@ func c14Gen(r *RNG, id string) *Case {
 	for _, g := range genes {
 		rows = append(rows, gffRowsOf(g)...)
 	}
+	if r.Bool() { // GFF files are commonly sorted by start: the rows of a joined gene are then not adjacent
+		rows = sortRowsByStart(rows)
+		c.Tag("rows-sorted-by-start")
+	}
 	gffTxt, gffProto := renderGFF(rows, genome, true, r.Bool(), refName)
 	m := buildMSA(r, genome, r.Range(1, 5), r.Bool(), r.Bool())
 	names := append([]string{refName}, m.names...)
@@ -188,4 +198,15 @@ func c14Gen(r *RNG, id string) *Case {
 		c.Set("annfmt", "gb").Set("feats", gbProto).Set("rows", gffProto).Set("anntext", gbTxt).Set("anntext2", gffTxt)
 		return relOf(c, "gbgff", "multiset")
 	}
+}
+
+// sortRowsByStart: stable sort by start coordinate (rows of one ID keep their relative order, which is ascending)
+func sortRowsByStart(rows []gffRow) []gffRow {
+	out := append([]gffRow{}, rows...)
+	for i := 1; i < len(out); i++ {
+		for j := i; j > 0 && out[j].start < out[j-1].start; j-- {
+			out[j], out[j-1] = out[j-1], out[j]
+		}
+	}
+	return out
 }
